@@ -62,8 +62,8 @@ LAYOUT = st.fixed_dictionaries({
 
 
 def plan(tier):
-    n, per = (8, 250) if tier == 'quick' else (12, 8000)
-    m, perm = (4, 150) if tier == 'quick' else (4, 5000)
+    n, per = (12, 1200) if tier == 'quick' else (12, 8000)
+    m, perm = (4, 800) if tier == 'quick' else (4, 5000)
     sh = [{'kind': 'pbn', 'n': per} for _ in range(n)] + [{'kind': 'json', 'n': perm} for _ in range(m)]
     if tier == 'thorough':       # coverage-guided campaigns on the same tests (atheris), own seed and corpus each
         sh += [{'kind': 'fuzz', 'target': 'pbn', 'runs': 25000} for _ in range(6)] + [{'kind': 'fuzz', 'target': 'json', 'runs': 15000} for _ in range(2)]
